@@ -1,6 +1,7 @@
 package gen
 
 import (
+	"database/sql"
 	"math"
 	"reflect"
 	"strings"
@@ -76,6 +77,8 @@ func HostileValues() []any {
 		map[string]string{"a": "s", "f": "t"}, map[string][]string{"a": {"x"}}, map[string]map[string]any{"a": {"b": 1}}, map[string]*int{"a": &one}, map[string]NamedInt{"a": 1},
 		map[string]any{}, map[string]string{}, map[string]any{"": 1}, map[string]any{"a": nil}, map[string]int32{"a": 1}, map[string]uint{"a": 1}, map[string]time.Time{"a": BaseTime},
 		map[string]struct{}{"a": {}}, map[string]func(){"a": nil}, map[string]chan int{"a": nil}, map[[2]int]string{{1, 2}: "x"},
+		// database/sql wrapper types (driver.Valuer with value receivers), also as typed-nil pointers
+		sql.NullString{}, sql.NullString{String: "s", Valid: true}, (*sql.NullString)(nil), (*sql.NullTime)(nil), (*sql.NullInt64)(nil), &sql.NullInt64{Int64: 3, Valid: true}, map[string]any{"a": (*sql.NullString)(nil), "f": (*sql.NullBool)(nil)}, []any{(*sql.NullFloat64)(nil)},
 		// named string keys over element types the providers do not convert
 		map[KeyStr][]string{"a": {"x"}, "f": {"y", "z"}}, map[KeyStr]int64{"a": 1, "f": 2}, map[KeyStr]time.Time{"a": BaseTime}, map[KeyStr]*int{"a": &one}, map[NamedStr]map[string]any{"a": {"b": 1}}, map[KeyStr]struct{ A int }{"a": {1}},
 		// structs
